@@ -16,7 +16,7 @@ open Ctrmml Ctrmml.Alloc
 /-- what a song carries for one pointer slot, as `add_song` reads it from the `dblk` list -/
 inductive Carried
   | data (addr : Nat) (flag : Bool) (bytes : Bytes)
-  | pcm (addr : Nat) (hdr : Wave.Sample) (bytes : Bytes)   -- the song's header and `pcmd[position, position+size)`
+  | pcm (addr : Nat) (hdr : Wave.Sample) (bytes : Bytes)   -- the song's header and its playback window `pcmd[position+start, +size)`
   deriving DecidableEq
 
 /-- the `uint16_t` patch address of entry `id` -/
@@ -29,16 +29,11 @@ def carriedOf (sdata : Nat) (pcmd : Bytes) (c : Riff.Riff) : Option Carried :=
     | some id => some (.data (slotAddr sdata id) (decide (id ≥ 2147483648)) (c.data.drop 4))
   else if c.type = Tables.link_cc_pcmh then
     match rdLe32 c.data 0, Wave.Sample.fromBytes (c.data.drop 4) with
-    | some id, some hdr => some (.pcm (slotAddr sdata id) hdr (LinkSpec.readAt pcmd hdr.position hdr.size))
+    | some id, some hdr => some (.pcm (slotAddr sdata id) hdr (LinkSpec.readAt pcmd (hdr.position + hdr.start) hdr.size))
     | _, _ => none
   else none
 
 def SongRead.carried (rd : SongRead) : List Carried := rd.chunks.filterMap (carriedOf rd.sdata rd.pcmd)
-
-/-- the D11 exclusion: PCM headers have start offset 0 -/
-def Carried.start0 : Carried → Prop
-  | .data .. => True
-  | .pcm _ hdr _ => hdr.start = 0
 
 /-- patch-table entry `q = (address, value)` resolves to what the song carried: the value is the
 (16-bit) index of a data-bank entry that is the carried data itself, or the PCM header of a sample
@@ -228,12 +223,11 @@ theorem addPcmh_count (sdata seqLen : Nat) (pcmd data : Bytes) (a a' : Acc)
 
 theorem addPcmh_step (sdata seqLen : Nat) (pcmd data : Bytes) (a a' : Acc) (rs : List Win)
     (inv : Wave.Inv a.wave rs) (hnd : a.bank.Nodup)
-    (hD11 : ∀ hdr, Wave.Sample.fromBytes (data.drop 4) = some hdr → hdr.start = 0)
     (h : addPcmh sdata seqLen pcmd data a = .ok a') :
     ∃ id hdr q rs', rdLe32 data 0 = some id ∧ Wave.Sample.fromBytes (data.drop 4) = some hdr ∧
       a'.patch = a.patch ++ [q] ∧ Wave.Inv a'.wave rs' ∧ a'.bank.Nodup ∧
       Ext a.bank a.wave rs a'.bank a'.wave rs' ∧
-      Resolves a'.bank a'.wave q (.pcm (slotAddr sdata id) hdr (LinkSpec.readAt pcmd hdr.position hdr.size)) := by
+      Resolves a'.bank a'.wave q (.pcm (slotAddr sdata id) hdr (LinkSpec.readAt pcmd (hdr.position + hdr.start) hdr.size)) := by
   unfold addPcmh at h
   split at h
   · cases h
@@ -244,7 +238,6 @@ theorem addPcmh_step (sdata seqLen : Nat) (pcmd data : Bytes) (a a' : Acc) (rs :
     · split at h
       · cases h
       · rename_i header hh
-        have hstart := hD11 header hh
         split at h
         · cases h
         · rename_i hfit
@@ -256,18 +249,19 @@ theorem addPcmh_step (sdata seqLen : Nat) (pcmd data : Bytes) (a a' : Acc) (rs :
             · rename_i h2 hget
               simp only [Except.ok.injEq] at h
               subst h
-              have hlen : ((pcmd.drop header.position).take header.size).length = header.size := by
+              have hlen : ((pcmd.drop (header.position + header.start)).take header.size).length = header.size := by
                 simp only [List.length_take, List.length_drop]; omega
-              have hsmall := addSample_small a.wave rs _ _ w sidx inv (by simp only [hlen]) hadd
-              have adm : Wave.Adm a.wave { header with position := 0 } ((pcmd.drop header.position).take header.size) :=
-                ⟨by simp only [hstart, hlen]; omega, hsmall, fun _ => hstart⟩
+              have hsmall := addSample_small a.wave rs { header with position := 0, start := 0 } _ w sidx inv (by simp only [hlen]) hadd
+              have adm : Wave.Adm a.wave { header with position := 0, start := 0 } ((pcmd.drop (header.position + header.start)).take header.size) :=
+                ⟨hsmall⟩
               have so := Wave.addSample_step a.wave rs _ _ w sidx inv adm hadd
               obtain ⟨s0, hs0, hread, hst, hsz, hrt⟩ := so.entry
+              have hst0 : s0.start = 0 := by rw [hst]; simp
               have hcnt := addSample_count _ _ _ _ _ hadd
               have es : s0 = h2 := by rw [hs0] at hget; exact Option.some.inj hget
               subst es
               obtain ⟨u1, u2, u3⟩ := addUnique_spec a.bank (pcmHeader s0) hnd
-              have hreg : ∀ r ∈ rs, r ∈ Wave.stepRegions a.wave { header with position := 0 } ((pcmd.drop header.position).take header.size) rs := by
+              have hreg : ∀ r ∈ rs, r ∈ Wave.stepRegions a.wave { header with position := 0, start := 0 } ((pcmd.drop (header.position + header.start)).take header.size) rs := by
                 intro r hr
                 unfold Wave.stepRegions
                 split
@@ -279,18 +273,16 @@ theorem addPcmh_step (sdata seqLen : Nat) (pcmd data : Bytes) (a a' : Acc) (rs :
                 · rw [g]; exact hs
                 · rw [g]; exact List.mem_append_left _ hs
               refine ⟨id, header, _, _, hid, hh, rfl, so.inv, u3, ⟨u2, hsamp, hreg, so.stable, hcnt.1, so.same⟩, rfl,
-                (addUnique a.bank (pcmHeader s0)).1, s0, rfl, u1, List.mem_of_getElem? hs0, ?_, hsz, hrt, ?_⟩
-              · rw [hst]; exact hstart
+                (addUnique a.bank (pcmHeader s0)).1, s0, rfl, u1, List.mem_of_getElem? hs0, hst0, hsz, hrt, ?_⟩
               · have : Wave.Sample.win s0 = ⟨s0.position, s0.size⟩ := by
-                  simp only [Wave.Sample.win, hst, hstart, Nat.add_zero]
+                  simp only [Wave.Sample.win, hst0, Nat.add_zero]
                 rw [← this, hread]
-                simp only [hstart, List.drop_zero, LinkSpec.readAt]
+                simp only [List.drop_zero, LinkSpec.readAt]
                 rw [List.take_take, Nat.min_self]
 
 /-- one child of the `dblk` list -/
 theorem stepDblk_step (sdata seqLen : Nat) (pcmd : Bytes) (c : Riff.Riff) (a a' : Acc) (rs : List Win)
     (inv : Wave.Inv a.wave rs) (hnd : a.bank.Nodup)
-    (hD11 : ∀ cr, carriedOf sdata pcmd c = some cr → cr.start0)
     (h : stepDblk sdata seqLen pcmd c a = .ok a') :
     ∃ rs', Wave.Inv a'.wave rs' ∧ a'.bank.Nodup ∧ Ext a.bank a.wave rs a'.bank a'.wave rs' ∧
       ((carriedOf sdata pcmd c = none ∧ a'.patch = a.patch) ∨
@@ -303,17 +295,7 @@ theorem stepDblk_step (sdata seqLen : Nat) (pcmd : Bytes) (c : Riff.Riff) (a a' 
     simp only [carriedOf, hty, if_true, h1]
   · split at h
     · rename_i hty1 hty
-      have hd : ∀ hdr, Wave.Sample.fromBytes (c.data.drop 4) = some hdr → hdr.start = 0 := by
-        intro hdr hh
-        cases hid : rdLe32 c.data 0 with
-        | none =>
-          unfold addPcmh at h
-          rw [hid] at h; cases h
-        | some id =>
-          have := hD11 (.pcm (slotAddr sdata id) hdr (LinkSpec.readAt pcmd hdr.position hdr.size))
-            (by simp only [carriedOf, hty, show Tables.link_cc_pcmh ≠ Tables.link_cc_glob by decide, if_true, if_false, hid, hh])
-          exact this
-      obtain ⟨id, hdr, q, rs', h1, h2, h3, h4, h5, h6, h7⟩ := addPcmh_step sdata seqLen pcmd c.data a a' rs inv hnd hd h
+      obtain ⟨id, hdr, q, rs', h1, h2, h3, h4, h5, h6, h7⟩ := addPcmh_step sdata seqLen pcmd c.data a a' rs inv hnd h
       refine ⟨rs', h4, h5, h6, Or.inr ⟨q, _, ?_, h3, h7⟩⟩
       simp only [carriedOf, hty, show Tables.link_cc_pcmh ≠ Tables.link_cc_glob by decide, if_true, if_false, h1, h2]
     · rename_i hty1 hty2
@@ -356,7 +338,6 @@ theorem foldDblk_count (sdata seqLen : Nat) (pcmd : Bytes) (cs : List Riff.Riff)
 resolving in the final banks -/
 theorem foldDblk_step (sdata seqLen : Nat) (pcmd : Bytes) (cs : List Riff.Riff) (a a' : Acc) (rs : List Win)
     (inv : Wave.Inv a.wave rs) (hnd : a.bank.Nodup)
-    (hD11 : ∀ cr ∈ cs.filterMap (carriedOf sdata pcmd), cr.start0)
     (h : foldDblk sdata seqLen pcmd cs none a = .ok a') :
     ∃ rs' qs, Wave.Inv a'.wave rs' ∧ a'.bank.Nodup ∧ Ext a.bank a.wave rs a'.bank a'.wave rs' ∧
       a'.patch = a.patch ++ qs ∧ All2 (Resolves a'.bank a'.wave) qs (cs.filterMap (carriedOf sdata pcmd)) := by
@@ -371,20 +352,8 @@ theorem foldDblk_step (sdata seqLen : Nat) (pcmd : Bytes) (cs : List Riff.Riff) 
     | ok a1 =>
       rw [hs] at h
       simp only at h
-      have hD1 : ∀ cr, carriedOf sdata pcmd c = some cr → cr.start0 := by
-        intro cr hcr
-        apply hD11
-        simp only [List.filterMap_cons, hcr]
-        exact List.mem_cons_self ..
-      obtain ⟨rs1, inv1, hnd1, x1, hcase⟩ := stepDblk_step sdata seqLen pcmd c a a1 rs inv hnd hD1 hs
-      have hD2 : ∀ cr ∈ cs.filterMap (carriedOf sdata pcmd), cr.start0 := by
-        intro cr hcr
-        apply hD11
-        simp only [List.filterMap_cons]
-        split
-        · exact hcr
-        · exact List.mem_cons_of_mem _ hcr
-      obtain ⟨rs', qs, inv', hnd', x2, hp, hf⟩ := ih a1 rs1 inv1 hnd1 hD2 h
+      obtain ⟨rs1, inv1, hnd1, x1, hcase⟩ := stepDblk_step sdata seqLen pcmd c a a1 rs inv hnd hs
+      obtain ⟨rs', qs, inv', hnd', x2, hp, hf⟩ := ih a1 rs1 inv1 hnd1 h
       rcases hcase with ⟨hn, hp1⟩ | ⟨q, cr, hsome, hp1, hres⟩
       · refine ⟨rs', qs, inv', hnd', x1.trans x2, by rw [hp, hp1], ?_⟩
         simp only [List.filterMap_cons, hn]; exact hf
@@ -449,9 +418,6 @@ def Op.src : Op → List (Bytes × Bytes)
   | .add name file => [(name, file)]
   | .query => []
 
-/-- the D11 exclusion for a file: every PCM header the linker reads from it has start offset 0 -/
-def FileStart0 (file : Bytes) : Prop := ∀ rd, readSong file = some rd → ∀ cr ∈ rd.carried, cr.start0
-
 theorem SongOk.mono {src src' : List (Bytes × Bytes)} {bank bank' : List Bytes} {w w' : Wave.Bank} {rs rs' : List Win} {sd : SeqData}
     (h : SongOk src bank w sd) (hsub : ∀ p ∈ src, p ∈ src') (inv : Wave.Inv w rs) (x : Ext bank w rs bank' w' rs') :
     SongOk src' bank' w' sd := by
@@ -460,14 +426,13 @@ theorem SongOk.mono {src src' : List (Bytes × Bytes)} {bank bank' : List Bytes}
 
 /-- one `add_song` -/
 theorem addSong_step (l l' : Linker) (rs : List Win) (src : List (Bytes × Bytes)) (name file : Bytes) (mds : Riff.Riff)
-    (I : LInv l rs src) (ho : Riff.ofBytes file = .ok mds) (hD11 : FileStart0 file)
+    (I : LInv l rs src) (ho : Riff.ofBytes file = .ok mds)
     (h : addSong l mds name = .ok l') :
     ∃ rs', LInv l' rs' (src ++ [(name, file)]) ∧ Ext l.dataBank l.wave rs l'.dataBank l'.wave rs' ∧
       ∃ sd, sd.filename = name ∧ ∀ x, x ∈ l'.songs ↔ x ∈ l.songs ∨ x = sd := by
   obtain ⟨rd, a, hrd, hfold, hl'⟩ := addSong_read l l' file mds name ho h
   subst hl'
-  obtain ⟨rs', qs, inv', hnd', x, hp, hf⟩ := foldDblk_step rd.sdata rd.seq.length rd.pcmd rd.chunks _ a rs I.wave I.nodup
-    (hD11 rd hrd) hfold
+  obtain ⟨rs', qs, inv', hnd', x, hp, hf⟩ := foldDblk_step rd.sdata rd.seq.length rd.pcmd rd.chunks _ a rs I.wave I.nodup hfold
   simp only [List.nil_append] at hp
   refine ⟨rs', ⟨inv', hnd', ?_⟩, x, { filename := name, data := rd.seq, patch := a.patch }, rfl, ?_⟩
   · intro sd hsd
@@ -508,7 +473,7 @@ theorem runOps_count (ops : List Op) (l l' : Linker) (h : runOps ops l = .ok l')
 
 /-- any list of operations -/
 theorem runOps_inv (ops : List Op) (l l' : Linker) (rs : List Win) (src : List (Bytes × Bytes))
-    (I : LInv l rs src) (hD11 : ∀ name file, Op.add name file ∈ ops → FileStart0 file)
+    (I : LInv l rs src)
     (h : runOps ops l = .ok l') :
     ∃ rs', LInv l' rs' (src ++ ops.flatMap Op.src) ∧ Ext l.dataBank l.wave rs l'.dataBank l'.wave rs' ∧
       (∀ x ∈ l.songs, x ∈ l'.songs) := by
@@ -519,7 +484,7 @@ theorem runOps_inv (ops : List Op) (l l' : Linker) (rs : List Win) (src : List (
   | cons o ops ih =>
     cases o with
     | query =>
-      obtain ⟨rs', I', x, hs⟩ := ih l rs src I (fun n f hm => hD11 n f (List.mem_cons_of_mem _ hm)) h
+      obtain ⟨rs', I', x, hs⟩ := ih l rs src I h
       exact ⟨rs', by simpa [Op.src] using I', x, hs⟩
     | add name file =>
       simp only [runOps] at h
@@ -533,8 +498,8 @@ theorem runOps_inv (ops : List Op) (l l' : Linker) (rs : List Win) (src : List (
         | ok l1 =>
           rw [ha] at h
           simp only at h
-          obtain ⟨rs1, I1, x1, sd, _, hmem⟩ := addSong_step l l1 rs src name file mds I ho (hD11 name file (List.mem_cons_self ..)) ha
-          obtain ⟨rs', I', x2, hs⟩ := ih l1 rs1 _ I1 (fun n f hm => hD11 n f (List.mem_cons_of_mem _ hm)) h
+          obtain ⟨rs1, I1, x1, sd, _, hmem⟩ := addSong_step l l1 rs src name file mds I ho ha
+          obtain ⟨rs', I', x2, hs⟩ := ih l1 rs1 _ I1 h
           refine ⟨rs', ?_, x1.trans x2, fun y hy => hs y ((hmem y).mpr (Or.inl hy))⟩
           simpa [Op.src, List.append_assoc] using I'
 
